@@ -56,17 +56,27 @@ class TaintAnalysis:
         self._summ: Dict[Tuple[str, Tuple[Origins, ...], Optional[str]], Tuple[Origins, Tuple[Origins, ...]]] = {}
         self._field_cache: Dict[Tuple[str, str], Origins] = {}
         self._in_progress: Set[Tuple[str, str]] = set()
+        self._summ_in_progress: Set[Tuple] = set()
         self.functions_seen: Set[str] = set()
 
     # ---------------------------------------------------------------- fields
+    def new_round(self) -> None:
+        """Summaries are monotone; values computed inside a recursion cycle are only approximations, so the
+        driver repeats rounds until nothing grows (`changed` stays False)."""
+        self._round_fields: Set[Tuple[str, str]] = set()
+        self._round_summ: Set[Tuple] = set()
+        self.changed = False
+
     def field_taint(self, cls: ClassInfo, attr: str) -> Origins:
         key = (cls.fq, attr)
-        if key in self._field_cache:
-            return self._field_cache[key]
+        if not hasattr(self, "_round_fields"):
+            self.new_round()
+        if key in self._round_fields:
+            return self._field_cache.get(key, EMPTY)
         if key in self._in_progress:
-            return EMPTY
+            return self._field_cache.get(key, EMPTY)
         self._in_progress.add(key)
-        res: Set[str] = set()
+        res: Set[str] = set(self._field_cache.get(key, EMPTY))
         try:
             for c in self.p.mro(cls):
                 if not isinstance(c, ClassInfo):
@@ -91,7 +101,10 @@ class TaintAnalysis:
         finally:
             self._in_progress.discard(key)
         out = frozenset(res)
+        if out != self._field_cache.get(key, EMPTY):
+            self.changed = True
         self._field_cache[key] = out
+        self._round_fields.add(key)
         return out
 
     # ------------------------------------------------------------- functions
@@ -145,6 +158,20 @@ class TaintAnalysis:
                                 pairs.append((tt, o))
                 elif isinstance(node, ast.NamedExpr):
                     pairs.append((node.target, self.expr(fn, node.value, env, self_cls, depth)))
+                elif isinstance(node, ast.Call) and isinstance(node.func, ast.Attribute) and isinstance(node.func.value, ast.Name) \
+                        and node.func.attr in ("append", "extend", "add", "insert", "update", "setdefault", "appendleft", "write"):
+                    # container mutation: the container now carries what was put into it
+                    o = EMPTY
+                    for a in node.args:
+                        o = o | self.expr(fn, a, env, self_cls, depth)
+                    for k in node.keywords:
+                        o = o | self.expr(fn, k.value, env, self_cls, depth)
+                    pairs.append((node.func.value, o))
+                if isinstance(node, (ast.Assign, ast.AugAssign)):
+                    tg = node.targets if isinstance(node, ast.Assign) else [node.target]
+                    for t in tg:
+                        if isinstance(t, ast.Subscript) and isinstance(t.value, ast.Name):
+                            pairs.append((t.value, self.expr(fn, node.value, env, self_cls, depth)))
                 for tt, o in pairs:
                     if isinstance(tt, ast.Name):
                         old = env.get(tt.id, EMPTY)
@@ -157,9 +184,29 @@ class TaintAnalysis:
     def returns(self, fn: FuncInfo, self_cls: Optional[ClassInfo], param_taint: Dict[str, Origins], depth: int) -> Tuple[Origins, Tuple[Origins, ...]]:
         """(taint of the return value, element-wise taint when every return is a tuple literal of one arity)."""
         key = (fn.fq, tuple(param_taint.get(p_, EMPTY) for p_ in fn.params), self_cls.fq if self_cls else None)
-        if key in self._summ:
+        if not hasattr(self, "_round_summ"):
+            self.new_round()
+        if key in self._round_summ:
             return self._summ[key]
-        self._summ[key] = (EMPTY, ())
+        if key in self._summ_in_progress:
+            return self._summ.get(key, (EMPTY, ()))
+        self._summ_in_progress.add(key)
+        try:
+            res = self._returns(fn, self_cls, param_taint, depth)
+        finally:
+            self._summ_in_progress.discard(key)
+        old = self._summ.get(key)
+        if old is not None:
+            tot = old[0] | res[0]
+            el = tuple(a | b for a, b in zip(old[1], res[1])) if len(old[1]) == len(res[1]) else res[1]
+            res = (tot, el)
+        if res != old:
+            self.changed = True
+        self._summ[key] = res
+        self._round_summ.add(key)
+        return res
+
+    def _returns(self, fn: FuncInfo, self_cls: Optional[ClassInfo], param_taint: Dict[str, Origins], depth: int) -> Tuple[Origins, Tuple[Origins, ...]]:
         env = self.function_env(fn, self_cls, param_taint, depth)
         total: Set[str] = set()
         elems: Optional[List[Set[str]]] = None
@@ -185,9 +232,7 @@ class TaintAnalysis:
                             elems[i] |= self.expr(fn, e, env, self_cls, depth)
                 else:
                     uniform = False
-        res = (frozenset(total), tuple(frozenset(e) for e in elems) if (elems is not None and uniform) else ())
-        self._summ[key] = res
-        return res
+        return (frozenset(total), tuple(frozenset(e) for e in elems) if (elems is not None and uniform) else ())
 
     def _tuple_elem(self, fn, val: ast.expr, idx: int, n: int, env, self_cls, depth, whole: Origins) -> Origins:
         """Taint of element idx when unpacking `val` into n targets."""
@@ -241,6 +286,10 @@ class TaintAnalysis:
                 cls = self_cls or self.p.enclosing_class(fn)
                 if cls is not None:
                     ft = self.field_taint(cls, e.attr)
+                    m = self.p.find_method(cls, e.attr)
+                    if m is not None and any(d.endswith("property") for d in m.decorators) and depth < self.spec.max_depth and self.spec.follow(m):
+                        tot, _ = self.returns(m, cls, {}, depth + 1)
+                        ft = ft | tot
                     return ft
                 return EMPTY
             return rec(e.value)
